@@ -40,6 +40,8 @@ func runC08(c *Check, tier string) {
 	rulePendingEntryReleased(c, "R08p", "caching", "caching/backends", "output", "output/handlers")
 	// a restore on the second machine reports the blobs it could not fetch
 	shareRule(c, "R08i", "an error channel whose sends never block (select/default) has room for at least one error (same obligation as R04d)", 1, "R04d", func(sub *Check) { ruleR04d(sub) }, func(k string) bool { return strings.Contains(k, "output/handlers") || strings.Contains(k, "caching") })
+	// round 7: a remote miss or error never turns into a hang: slots taken around cache reads are given back on the error path too
+	shareRule(c, "R08q", "every semaphore slot acquired around a cache operation is released on every path to return, the failing ones included (same obligations as R04g)", 1, "R04g", func(sub *Check) { ruleSemaphorePairing(sub, "R04g") }, nil)
 }
 
 type wrapperInfo struct {
